@@ -17,7 +17,7 @@ ID = "C19"
 LEVEL = "model_checking"
 RULE = ("harnesses: H0 every leftover cache directory (installed files x stale temp copy x lock file x time stamp) then a "
         "load of each version; H1 two populators || one loader on an empty cache; H2 one populator crashed at every point, then loader, "
-        "populator, loader; H3 populator || populator; H4 two CacheLock holders (time-out allowed to fire), H4c three holders; H5 refresh interval "
+        "populator, loader; H3 populator || populator; H4 two CacheLock holders (time-out allowed to fire), H4c three holders; H5c two time-recording refreshers at one clock time; H5 refresh interval "
         "x clock answers x torn time-stamp files; H6 network refresh (fake server) crashed at every point || loader; H7 network refresh whose download is cut after k bytes (real url_to_file over a fake response).  Every "
         "execution with <= B deviations (preemption of a runnable process, lock time-out, crash) is run on the real functions; "
         "state = (directory contents, lock holder, per-process program point) reached after each step; transition = one "
@@ -620,6 +620,44 @@ def h4c(rec, world, shard, nshards, bound):
     return sched.explore(mk, bound, chk, shard_filter(shard, nshards))
 
 
+def h5c(rec, world, shard, nshards, bound):
+    """Two refreshers (holders that record the time) on one directory at the same clock time: whatever the interleaving,
+    at most one of them runs its refresh - the other is skipped by the interval or gives up on the lock."""
+    state = {"ran": 0}
+
+    def refresher(tag):
+        def body():
+            from hed.schema.hed_cache_lock import CacheLock, CacheException
+            try:
+                with CacheLock(WORLD.cache):
+                    state["ran"] += 1
+                    pt("refreshing", tag)
+                return ("refreshed", tag)
+            except CacheException:
+                return ("skipped", tag)
+        return body
+    procs = [("refresher-A", refresher("A"), False), ("refresher-B", refresher("B"), False)]
+
+    def mk(choices):
+        state.update(ran=0)
+        return run_exec(world, procs, choices, crash=False, clock={"default": 1.8e9})
+
+    def chk(x):
+        rec.n("evaluations")
+        rec.n("transitions", len(x.points))
+        if x.deviations:
+            rec.n("distinct_nontrivial")
+        where = {"harness": "H5c", "choices": x.taken, "schedule": [(pid, v, k) for pid, v, k, d in x.log]}
+        for p in x.procs:
+            if p.error is not None:
+                rec.violation(f"C19:H5c:refresher-raised:{type(p.error).__name__}", error=repr(p.error)[:200], **where)
+        if state["ran"] > 1:
+            rec.violation("C19:H5c:two-refreshes-within-one-interval", **where)
+        rec.outcome("H5c:" + ",".join(sorted(p.result[0] for p in x.procs if p.result)))
+        rec.state(("H5c", tuple(x.taken)))
+    return sched.explore(mk, bound, chk, shard_filter(shard, nshards))
+
+
 def h0(rec, world, versions):
     """Every leftover cache directory an earlier process can leave behind, followed by one load of each installed version
     (sequential): each installed file {absent, complete}, a stale temporary copy {absent, half}, lock file {absent, present},
@@ -732,6 +770,25 @@ def h5(rec, world):
             rec.outcome(f"H5:failed-refresh:{attempt}:{made}")
     finally:
         world.hc.make_url_request = real_request
+    # the time stamp cannot be written (its name is taken by a directory): whatever the holder's exit does, the lock is free
+    # again afterwards
+    world.reset()
+    os.makedirs(os.path.join(world.cache, TIMESTAMP_FILENAME))
+    world.clock["default"] = t0
+    rec.n("evaluations")
+    try:
+        with CacheLock(world.cache):
+            pass
+    except CacheException:
+        pass
+    except BaseException:
+        pass            # the failed write may surface as an error of its own
+    try:
+        with CacheLock(world.cache, write_time=False):
+            pass
+        rec.outcome("H5:lock-free-after-failed-time-stamp-write")
+    except CacheException as e:
+        rec.violation("C19:H5:lock-kept-after-failed-time-stamp-write", error=repr(e)[:200])
     for content in ("", "17", "1.7e", "not a number", "\x00\x00", "1700000000.0\n"):
         world.reset()
         with open(os.path.join(world.cache, TIMESTAMP_FILENAME), "w") as f:
@@ -881,6 +938,7 @@ def worker(rec, shard, nshards, scratch, files, bounds, thorough, seed):
                      ("H3", lambda: h3(rec, WORLD, shard, nshards, bounds["H3"], versions)),
                      ("H4", lambda: h4(rec, WORLD, shard, nshards, bounds["H4"])),
                      ("H4c", lambda: h4c(rec, WORLD, shard, nshards, bounds["H4c"])),
+                     ("H5c", lambda: h5c(rec, WORLD, shard, nshards, bounds["H4"])),
                      ("H6", lambda: h6(rec, WORLD, shard, nshards, bounds["H6"], versions[0]))):
         st = fn()
         rec.n("executions_" + name, st["executions"])
